@@ -925,8 +925,8 @@ Proof.
   { intros j Hj. rewrite Hrl in Hj.
     pose proof (SS_nth nat lt 0%nat _ Hinc j (S j) ltac:(lia)) as H1.
     pose proof (SS_nth nat lt 0%nat _ Hinc (S j) (S (S j)) ltac:(lia)) as H2.
-    rewrite (Hblk j _ ltac:(lia) ltac:(lia)).
-    rewrite (Hblk (S j) _ ltac:(lia) ltac:(lia)).
+    rewrite (Hblk j (nth j (rvec E stk) 0%nat) ltac:(lia) ltac:(lia)).
+    rewrite (Hblk (S j) (nth (S j) (rvec E stk) 0%nat) ltac:(lia) ltac:(lia)).
     pose proof (SS_nth _ _ (0%Q, 0%nat) _ Hvinc j (S j) ltac:(lia)) as H3.
     cbv beta in H3. intros Heq. rewrite Heq in H3. exact (Qlt_irrefl _ H3). }
   intros v Hv.
@@ -948,3 +948,136 @@ Proof.
 Qed.
 
 End Contract.
+
+(* ---------- the contract survives the reversal of lines 420-422 ---------- *)
+
+Lemma contract_rev y x r : contract y x r ->
+  contract (rev y) (rev x) (map (fun k => (length x - k)%nat) (rev r)).
+Proof.
+  intros (Hlen & Hhd & Hlast & Hinc & Hconst & Hdiff & Hrange).
+  set (n := length x). set (m := length r).
+  set (g := fun k => (n - k)%nat). set (r' := map g (rev r)).
+  assert (Hr'l : length r' = m) by (unfold r'; rewrite map_length, rev_length; reflexivity).
+  assert (Hnth' : forall j, (j < m)%nat -> nth j r' 0%nat = (n - nth (m - S j) r 0)%nat).
+  { intros j Hj. unfold r'.
+    rewrite (nth_indep _ 0%nat (g 0%nat)) by (rewrite map_length, rev_length; exact Hj).
+    rewrite map_nth. rewrite rev_nth by exact Hj. reflexivity. }
+  assert (Hmono : forall i j, (i < j < m)%nat -> (nth i r 0 < nth j r 0)%nat).
+  { intros i j Hij. exact (SS_nth nat lt 0%nat r Hinc i j Hij). }
+  assert (HlastN : nth (m - 1) r 0%nat = n).
+  { rewrite last_nth in Hlast. fold m in Hlast. unfold n. rewrite Hlen. exact Hlast. }
+  assert (Hfst0 : nth 0 r 0%nat = 0%nat) by (rewrite <- hd_nth0; exact Hhd).
+  assert (Hle : forall k, (k < m)%nat -> (nth k r 0 <= n)%nat).
+  { intros k Hk. destruct (Nat.eq_dec k (m - 1)) as [->|Hne]; [lia|].
+    pose proof (Hmono k (m - 1)%nat ltac:(lia)) as H. lia. }
+  (* a position of block j of r' is a position of block m-2-j of r *)
+  assert (Hpos : forall j i, (S j < m)%nat -> (nth j r' 0 <= i < nth (S j) r' 0)%nat ->
+            (nth i (rev x) 0 == nth (nth (m - S (S j)) r 0%nat) x 0)%Q).
+  { intros j i Hj Hi. rewrite !Hnth' in Hi by lia.
+    assert (Ej : (m - S j = S (m - S (S j)))%nat) by lia.
+    pose proof (Hmono (m - S (S j))%nat (m - S j)%nat ltac:(lia)) as Hab.
+    pose proof (Hle (m - S j)%nat ltac:(lia)) as Hb.
+    rewrite rev_nth by (fold n; lia). fold n.
+    apply Hconst; [fold m; lia|]. rewrite <- Ej. lia. }
+  unfold contract. fold n. fold g. fold r'.
+  split. { rewrite !rev_length. exact Hlen. }
+  split.
+  { rewrite hd_nth0. destruct (Nat.eq_dec m 0) as [Hm|Hm].
+    - apply nth_overflow. lia.
+    - rewrite Hnth' by lia. lia. }
+  split.
+  { rewrite last_nth, Hr'l, rev_length, <- Hlen. fold n.
+    destruct (Nat.eq_dec m 0) as [Hm|Hm].
+    - rewrite nth_overflow by lia. rewrite nth_overflow in HlastN by (fold m; lia). lia.
+    - rewrite Hnth' by lia. replace (m - S (m - 1))%nat with 0%nat by lia. lia. }
+  split.
+  { apply (nth_SS nat lt 0%nat). intros i j Hij. rewrite Hr'l in Hij.
+    rewrite !Hnth' by lia.
+    pose proof (Hmono (m - S j)%nat (m - S i)%nat ltac:(lia)) as H1.
+    pose proof (Hle (m - S i)%nat ltac:(lia)) as H2. lia. }
+  split.
+  { intros j i Hj Hi. rewrite Hr'l in Hj.
+    rewrite (Hpos j i Hj Hi). symmetry. apply (Hpos j); [exact Hj|].
+    rewrite !Hnth' by lia.
+    pose proof (Hmono (m - S (S j))%nat (m - S j)%nat ltac:(lia)) as Hab.
+    pose proof (Hle (m - S j)%nat ltac:(lia)) as Hb. lia. }
+  split.
+  { intros j Hj. rewrite Hr'l in Hj.
+    assert (H1 : (nth j r' 0 <= nth j r' 0 < nth (S j) r' 0)%nat).
+    { rewrite !Hnth' by lia.
+      pose proof (Hmono (m - S (S j))%nat (m - S j)%nat ltac:(lia)) as Hab.
+      pose proof (Hle (m - S j)%nat ltac:(lia)) as Hb. lia. }
+    assert (H2 : (nth (S j) r' 0 <= nth (S j) r' 0 < nth (S (S j)) r' 0)%nat).
+    { rewrite !Hnth' by lia.
+      pose proof (Hmono (m - S (S (S j)))%nat (m - S (S j))%nat ltac:(lia)) as Hab.
+      pose proof (Hle (m - S (S j))%nat ltac:(lia)) as Hb. lia. }
+    rewrite (Hpos j _ ltac:(lia) H1), (Hpos (S j) _ ltac:(lia) H2).
+    intros Heq. apply (Hdiff (m - S (S (S j)))%nat); [fold m; lia|].
+    replace (S (m - S (S (S j))))%nat with (m - S (S j))%nat by lia.
+    symmetry. exact Heq. }
+  intros v Hv. apply in_rev in Hv.
+  destruct (Hrange v Hv) as (lo & hi & Hlo & Hhi & Hb).
+  exists lo, hi. split; [apply -> in_rev; exact Hlo|]. split; [apply -> in_rev; exact Hhi| exact Hb].
+Qed.
+
+(* ---------- the contract of every successful run ---------- *)
+
+Lemma run_contract I l inc x r : run I l inc x r -> contract (map (g_yv I) l) x r.
+Proof.
+  intros (stk & x0 & _ & Hok & Hflat & HQ & Ex & Er).
+  pose proof (contract_inc I stk x0 Hok HQ) as HC. rewrite Hflat in HC.
+  destruct inc; cbn [dir] in *.
+  - subst x r. exact HC.
+  - subst x r. apply contract_rev in HC.
+    rewrite <- map_rev, rev_involutive in HC. exact HC.
+Qed.
+
+Lemma map_fst_combine (A B : Type) : forall (a : list A) (b : list B),
+  length a = length b -> map fst (combine a b) = a.
+Proof.
+  induction a as [|p a IH]; intros b Hlen; [reflexivity|].
+  destruct b as [|q b]; [discriminate Hlen|].
+  cbn [length] in Hlen. injection Hlen as Hlen.
+  cbn [combine map fst]. rewrite (IH b Hlen). reflexivity.
+Qed.
+
+Lemma map_ey_data y weights : valid_w y weights -> map ey (data y weights) = y.
+Proof.
+  intros Hv. unfold data.
+  change (map ey (combine y (weights_of y weights)))
+    with (map fst (combine y (weights_of y weights))).
+  apply map_fst_combine. symmetry. apply weights_of_length. exact Hv.
+Qed.
+
+Theorem iso_contract : forall f y weights inc lvl x r,
+  (f = IFmean \/ (f = IFexpectile /\ (0 < lvl /\ lvl < 1)%Q)) ->
+  y <> [] -> valid_w y weights -> isotonic_regression y weights inc f lvl = IOk (x, r) ->
+  length x = length y /\
+  hd 0%nat r = 0%nat /\ last r 0%nat = length y /\ StronglySorted lt r /\
+  (* constant inside a block, different between adjacent blocks *)
+  (forall j i, (S j < length r)%nat -> (nth j r 0 <= i < nth (S j) r 0)%nat ->
+     (nth i x 0 == nth (nth j r 0%nat) x 0)%Q) /\
+  (forall j, (S (S j) < length r)%nat ->
+     ~ (nth (nth j r 0%nat) x 0 == nth (nth (S j) r 0%nat) x 0)%Q) /\
+  (* range *)
+  (forall v, In v x -> exists lo hi, In lo y /\ In hi y /\ (lo <= v /\ v <= hi)%Q).
+Proof.
+  intros f y weights inc lvl x r Hf Hn Hv H.
+  assert (HC : contract y x r).
+  { destruct Hf as [->|[-> Hl]].
+    - pose proof (run_contract _ _ _ _ _ (run_mean y weights inc lvl x r Hn Hv H)) as HC.
+      change (contract (map ey (data y weights)) x r) in HC. rewrite (map_ey_data y weights Hv) in HC. exact HC.
+    - pose proof (run_contract _ _ _ _ _ (run_expectile y weights inc lvl Hl x r Hn Hv H)) as HC.
+      change (contract (map ey (data y weights)) x r) in HC. rewrite (map_ey_data y weights Hv) in HC. exact HC. }
+  exact HC.
+Qed.
+
+Print Assumptions iso_mean_total.
+Print Assumptions iso_expectile_total.
+Print Assumptions iso_mean_optimal.
+Print Assumptions iso_mean_unique.
+Print Assumptions iso_mean_totals.
+Print Assumptions iso_expectile_optimal.
+Print Assumptions iso_expectile_unique.
+Print Assumptions iso_expectile_half_is_mean.
+Print Assumptions iso_contract.
